@@ -110,11 +110,11 @@ func (server *Server) Start() error {
 	}
 
 	if server.IsPortEnabled() {
-		go server.serve()
+		go server.serve(server.portListener)
 	}
 
 	if server.IsTLSPortEnabled() {
-		go server.tlsServe()
+		go server.tlsServe(server.tlsPortListener, server.tlsConfig)
 	}
 
 	return nil
@@ -208,14 +208,12 @@ func (server *Server) close() error {
 }
 
 // serve handles client connections.
-func (server *Server) serve() error {
-	defer server.close()
+func (server *Server) serve(l net.Listener) error {
+	// The accept loop owns the listener it was started with: when it ends it
+	// must not close the listeners a later Start has opened.
+	defer l.Close()
 
-	l := server.portListener
 	for {
-		if l == nil {
-			break
-		}
 		conn, err := l.Accept()
 		if err != nil {
 			return err
@@ -223,24 +221,19 @@ func (server *Server) serve() error {
 
 		go server.receive(conn, nil)
 	}
-
-	return nil
 }
 
 // tlsServe handles client connections with TLS.
-func (server *Server) tlsServe() error {
-	defer server.close()
-	l := server.tlsPortListener
+func (server *Server) tlsServe(l net.Listener, tlsConfig *tls.Config) error {
+	defer l.Close()
+
 	for {
-		if l == nil {
-			break
-		}
 		conn, err := l.Accept()
 		if err != nil {
 			return err
 		}
 
-		tlsConn := tls.Server(conn, server.tlsConfig)
+		tlsConn := tls.Server(conn, tlsConfig)
 		if err := tlsConn.Handshake(); err != nil {
 			return err
 		}
@@ -248,8 +241,6 @@ func (server *Server) tlsServe() error {
 
 		go server.receive(tlsConn, &tlsState)
 	}
-
-	return nil
 }
 
 // receive handles a client connection.
